@@ -48,7 +48,7 @@ package gohlslib
 
 //@ func muxerStream.hasPart
 //@   props C06
-//@   requires wfLL(s)
+//@   requires wfLL(s) && held(s.mutex)
 //@   ensures result == partPublished(s, segmentID, partID)
 //@   loop 1 invariant -1 <= ri && ri < len(s.segments)
 //@   loop 1 invariant (segmentID == old(segmentID) && partID == old(partID)
@@ -78,7 +78,7 @@ package gohlslib
 // ---------------------------------------------------------------------------------------
 // C20: client segment queue (monitor with two notification channels)
 
-//@ struct clientSegmentQueue guarded_by &self.mutex: queue, didPush, didPull
+//@ struct clientSegmentQueue guarded_by &self.mutex class queue: queue, didPush, didPull
 
 //@ func clientSegmentQueue.push
 //@   props C20
@@ -110,4 +110,65 @@ package gohlslib
 //@   ensures result ==> atlock(len(q.queue)) <= n
 //@   ensures calls("close") == 0
 //@   loop 1 invariant held(&q.mutex) && atlock(q.queue) == q.queue
+//@ end
+
+// ---------------------------------------------------------------------------------------
+// C06 / C07 / C08: monitor discipline of the muxer (one mutex, one condition variable)
+
+//@ struct Muxer guarded_by &self.mutex class muxer: closed
+//@ struct muxerStream guarded_by self.mutex class muxer: closed, segments, nextSegmentID, nextPartID, segmentDeleteCount, targetDuration, partTargetDuration, initFilePresent, nextSegment, nextPart
+//@ struct muxerSegmentFMP4 guarded_by * class muxer: parts
+//@ struct muxerServer guarded_by &self.mutex class server: pathHandlers
+//@ cond Muxer.cond class muxer waits_on: Muxer.closed, muxerStream.closed, muxerStream.segments, muxerStream.nextSegmentID, muxerStream.nextPartID, muxerSegmentFMP4.parts
+
+// what every handler may rely on once it holds the muxer mutex (established by Start, preserved by
+// the mutators: see the C04 contracts)
+//@ pred streamLinks(s *muxerStream) := s != nil && s.mutex != nil && s.cond != nil && condlock(s.cond) == s.mutex && s.server != nil && &s.server.mutex != s.mutex && s.generateMediaPlaylist != nil
+
+//@ pred llWindow(s *muxerStream) := wfLL(s) && s.segmentDeleteCount >= 0
+//@   && s.nextSegmentID == s.segmentDeleteCount + len(s.segments)
+
+// abstract contract of the func-typed field muxerStream.generateMediaPlaylist
+//@ func muxerStream.generateMediaPlaylist
+//@   like muxerStream.generateMediaPlaylistFMP4
+//@   ensures result1 == nil ==> result0 != nil
+//@ end
+
+//@ func muxerStream.handleMediaPlaylist$1
+//@   props C06 C07 C08
+//@   requires nolocks() && streamLinks(s) && s.variant == MuxerVariantLowLatency && w != nil && r != nil && r.URL != nil
+//@   waitinv llWindow(s)
+//@   ensures result != nil ==> !s.closed
+//@   ensures result != nil ==> s.hasContent()
+//@   ensures result != nil ==> partPublished(s, msnint, partint)
+//@   ensures result != nil ==> !(msnint > s.nextSegmentID + 1 || msnint < s.segmentDeleteCount)
+//@   ensures result != nil ==> calls("invoke.WriteHeader") == 0
+//@   ensures result == nil ==> (calls("invoke.WriteHeader") == 1 && (callarg("invoke.WriteHeader", 0, 1) == 400 || callarg("invoke.WriteHeader", 0, 1) == 500))
+//@   ensures (result == nil && callarg("invoke.WriteHeader", 0, 1) == 400) ==> !s.closed
+//@   ensures (result == nil && callarg("invoke.WriteHeader", 0, 1) == 400 && s.hasContent()) ==>
+//@        !(msnint == s.nextSegmentID || msnint == s.nextSegmentID + 1)
+//@   ensures s.closed ==> (result == nil && callarg("invoke.WriteHeader", 0, 1) == 500)
+//@   loop 1 invariant held(s.mutex) && calls("invoke.WriteHeader") == 0 && llWindow(s) && streamLinks(s)
+//@ end
+
+//@ func muxerStream.handleMediaPlaylist$2
+//@   props C06 C07 C08
+//@   requires nolocks() && streamLinks(s) && w != nil && r != nil && r.URL != nil
+//@   ensures result != nil ==> !s.closed
+//@   ensures result != nil ==> s.hasContent()
+//@   ensures result != nil ==> calls("invoke.WriteHeader") == 0
+//@   ensures result == nil ==> (calls("invoke.WriteHeader") == 1 && callarg("invoke.WriteHeader", 0, 1) == 500)
+//@   ensures s.closed ==> result == nil
+//@   loop 1 invariant held(s.mutex) && calls("invoke.WriteHeader") == 0 && streamLinks(s)
+//@ end
+
+// the preload-hint placeholder handler: blocks until the hinted part has been published, then
+// delegates to the handler registered under the same path
+//@ func muxerStream.rotateParts$2
+//@   props C06 C07 C08
+//@   requires nolocks() && streamLinks(s) && w != nil
+//@   ensures calls("dyncall") <= 1
+//@   ensures calls("dyncall") == 1 ==> (!s.closed && s.nextPartID > capturePartID && calls("invoke.WriteHeader") == 0)
+//@   ensures s.closed ==> (calls("dyncall") == 0 && calls("invoke.WriteHeader") == 1 && callarg("invoke.WriteHeader", 0, 1) == 500)
+//@   loop 1 invariant held(s.mutex) && calls("invoke.WriteHeader") == 0 && calls("dyncall") == 0 && streamLinks(s)
 //@ end
